@@ -71,6 +71,17 @@ pub struct DeweyVersion {
     pkgrevision: i64,
 }
 
+/**
+ * Case-insensitive ASCII prefix test, matching pkg_install's use of
+ * strncasecmp() when looking for version modifiers.
+ */
+fn starts_with_ignore_case(s: &str, prefix: &str) -> bool {
+    let s = s.as_bytes();
+    let prefix = prefix.as_bytes();
+    s.len() >= prefix.len()
+        && s[..prefix.len()].eq_ignore_ascii_case(prefix)
+}
+
 impl DeweyVersion {
     /**
      * Create a new [`DeweyVersion`] from a string.
@@ -128,19 +139,23 @@ impl DeweyVersion {
              * Supported modifiers and their weightings so that they are ordered
              * correctly.
              */
-            if slice.starts_with("alpha") {
+            if starts_with_ignore_case(slice, "alpha") {
                 version.push(-3);
                 idx += 5;
                 continue;
-            } else if slice.starts_with("beta") {
+            } else if starts_with_ignore_case(slice, "beta") {
                 version.push(-2);
                 idx += 4;
                 continue;
-            } else if slice.starts_with("rc") {
+            } else if starts_with_ignore_case(slice, "pre") {
+                version.push(-1);
+                idx += 3;
+                continue;
+            } else if starts_with_ignore_case(slice, "rc") {
                 version.push(-1);
                 idx += 2;
                 continue;
-            } else if slice.starts_with("pl") {
+            } else if starts_with_ignore_case(slice, "pl") {
                 version.push(0);
                 idx += 2;
                 continue;
